@@ -228,6 +228,9 @@ func genFlow(rng *rand.Rand, o *wireOpts, v Variant, c *sim.Call, fi int, actor 
 				}
 			}
 			r := sim.Reply{Form: form, DelayUs: delay, K: rng.IntN(4)}
+			if o.catalogue && atDest && (v.Entry == "tcp" || v.Entry == "sack") && chance(rng, 0.2) {
+				r.OuterOpts = true // the destination's own reply under an IPv4 header with options
+			}
 			if chance(rng, o.lateProb) {
 				r.DelayUs = windowUs + int64(between(rng, 1000, 500000))
 				if !serial {
@@ -401,7 +404,7 @@ func shapeOf(sc *sim.Scenario) string {
 		for _, h := range sc.Flows[i].Hops {
 			s += fmt.Sprintf("%d:", h.TTL)
 			for _, r := range h.Replies {
-				s += r.Form + "/" + r.Perturb + "/" + r.Garbage + ","
+				s += r.Form + "/" + r.Perturb + "/" + r.Garbage + fmt.Sprint(r.OuterOpts)[:1] + ","
 			}
 		}
 	}
